@@ -921,3 +921,59 @@ def owners(F, R):
         R.ob('C09.owner', ok, {'row': Facts.short(str(a[0]), 80), 'current_state_type': Facts.short(cur, 50), 'next_state_type': Facts.short(nxt, 50)})
         if not ok:
             R.find('C09.owner', (r['loc'].split(':')[0], r['q']), 'owner', 'row %s: generated transition has source cell %s / target %s, the declaration requires %s / %s' % (Facts.short(str(a[0]), 100), Facts.short(cur, 60), Facts.short(nxt, 60), Facts.short(exp_cur, 60), Facts.short(str(exp_nxt), 60)), where=r['loc'], instance=Facts.short(str(a[0]), 200))
+
+@rule('explicitidx')
+def explicitidx(F, R):
+    """C09.region: an explicitly entered substate is activated in the region it is declared in: the index used when writing the
+    active-state array equals the state's declared zone_index (explicit_entry<N> / entry_pseudo_state<N>)."""
+    from rules_core import backend_of
+    from rules_rtc import active_index, const_of
+    from effects import ACTIVE_MEMBERS
+    def zone_of(t):
+        todo = [strip_cvref(t)]; n = 0
+        while todo and n < 24:
+            n += 1
+            rec = F.rec_by_type(todo.pop(0))
+            if rec is None: continue
+            if 'zone_index' in rec['consts']: return rec['consts']['zone_index']
+            todo.extend(F.strs[b['t']] for b in rec['bases'])
+        return None
+    for f in F.funcs:
+        be = backend_of(f)
+        if be is None or not f.blocks: continue
+        state_t = None
+        if be == 'backmp11': pass
+        elif be in ('back', 'back11') and f.n == 'operator()' and f.cls == 'fork_helper':
+            ta = f.targs() or []
+            if ta:
+                rec = F.rec_by_type(strip_cvref(str(ta[0])))
+                if rec and 'wrapped_entry' in rec['tds']: state_t = F.strs[rec['tds']['wrapped_entry']]
+        elif be in ('back', 'back11') and f.n == 'operator()' and f.cls == 'direct_event_start_helper':
+            pt = f.param_types()
+            if pt:
+                rec = F.rec_by_type(strip_cvref(pt[0]))
+                ast = F.strs[rec['tds']['active_state']] if rec and 'active_state' in rec['tds'] else None
+                if ast and type_list(ast) is None:
+                    r2 = F.rec_by_type(strip_cvref(ast))
+                    if r2 and 'wrapped_entry' in r2['tds']: state_t = F.strs[r2['tds']['wrapped_entry']]
+        if state_t is None and be != 'backmp11': continue
+        z = zone_of(state_t) if state_t else None
+        for i, n in enumerate(f.nodes):
+            if n and n['k'] == 'asg' and f.base_member(n['lhs']) in ACTIVE_MEMBERS:
+                if be == 'backmp11':
+                    # the state is the one whose id is stored: m_active_state_ids[k] = get_state_id<State>()
+                    r = f.nodes[n['rhs']]
+                    while r and r['k'] in ('icast', 'cast'): r = f.nodes[r['e']]
+                    if not (r and r['k'] == 'call' and r.get('n') == 'get_state_id' and r.get('ta')): continue
+                    a0 = r['ta'][0]
+                    state_t = F.strs[a0['t']] if isinstance(a0, dict) and 't' in a0 else None
+                    if state_t is None: continue
+                    z = zone_of(state_t)
+                ai = active_index(f, n['lhs'])
+                k = const_of(f, ai[0]) if ai else None
+                if k is None or z is None or z < 0: continue
+                R.seen(f); R.anchor('explicit-region:' + be)
+                ok = k == z
+                R.ob('C09.region', ok, {'func': f.q, 'state': Facts.short(state_t, 60), 'declared_region': z, 'region_written': k})
+                if not ok:
+                    R.find('C09.region', f, 'region', 'explicitly entered state %s is declared in region %d but is activated in region %d' % (Facts.short(state_t, 60), z, k), where=f.at(i), instance=Facts.short(state_t, 160))
